@@ -1194,7 +1194,25 @@ impl Run {
             }
             return;
         }
-        if self.locate.is_some() || !self.wants_prefix(&config) {
+        if let Some(lc) = self.locate.clone() {
+            // --locate config plan op ai bi ci aux: the registers of that transition (crash / hang attribution)
+            if lc.len() >= 7 && lc[0] == config && lc[1] == plan.label && !plan.a.is_empty() {
+                let idx = |k: &str| -> usize { k.parse().unwrap_or(0) };
+                let a = plan.a.get(idx(&lc[3])).unwrap_or(&plan.a[0]);
+                let b = plan.b.get(idx(&lc[4])).unwrap_or(a);
+                let c = plan.c.get(idx(&lc[5])).unwrap_or(a);
+                let arity = ops_a.iter().find(|o| o.name == lc[2]).map(|o| o.arity).unwrap_or(2);
+                let (r1, r2) = match arity {
+                    1 => (a, a),
+                    2 => (b, a),
+                    _ => (b, c),
+                };
+                println!("LOCATED|{}|{}|{}|{}|{}|{}", config, lc[2], a.hex(), r1.hex(), r2.hex(), lc[6]);
+                self.replay_done = true;
+            }
+            return;
+        }
+        if !self.wants_prefix(&config) {
             return;
         }
         if self.over_deadline() {
@@ -1208,10 +1226,12 @@ impl Run {
         let pc: Vec<B> = plan.c.iter().map(|x| conv(x)).collect();
         let cfg = config.clone();
         let l = par_chunks(self.threads, plan.a.len(), |lo, hi, l| {
+            crumbs::relabel(l.slot, &cfg, &plan.label);
             for ai in lo..hi {
                 let a = plan.a[ai];
                 let a2 = conv(&a);
-                let step = |i: usize, ra: &[A; 3], rb: &[B; 3], aux: u64, l: &mut Local| {
+                let step = |i: usize, bi: usize, ci: usize, ra: &[A; 3], rb: &[B; 3], aux: u64, l: &mut Local| {
+                    crumbs::at(l.slot, ops_a[i].name, ai, bi, ci, aux);
                     let (oa, ob) = run_op(i, ra, rb, aux);
                     let e = expectation(ob, &oa);
                     l.check(&cfg, ops_a[i].name, || vec![ra[0].hex(), ra[1].hex(), ra[2].hex()], aux, &e, &oa);
@@ -1222,7 +1242,7 @@ impl Run {
                     match op.arity {
                         1 => {
                             for &x in auxs {
-                                step(i, &[a, a, a], &[a2, a2, a2], x, l);
+                                step(i, 0, 0, &[a, a, a], &[a2, a2, a2], x, l);
                             }
                         }
                         2 => {
@@ -1231,7 +1251,7 @@ impl Run {
                                     break;
                                 }
                                 for &x in auxs {
-                                    step(i, &[a, *b, a], &[a2, pb[bi], a2], x, l);
+                                    step(i, bi, 0, &[a, *b, a], &[a2, pb[bi], a2], x, l);
                                 }
                             }
                         }
@@ -1239,7 +1259,7 @@ impl Run {
                             for (bi, b) in plan.b.iter().enumerate() {
                                 for (ci, c) in plan.c.iter().enumerate() {
                                     for &x in auxs {
-                                        step(i, &[a, *b, *c], &[a2, pb[bi], pc[ci]], x, l);
+                                        step(i, bi, ci, &[a, *b, *c], &[a2, pb[bi], pc[ci]], x, l);
                                     }
                                 }
                             }
@@ -1408,6 +1428,18 @@ pub mod crumbs {
         }
     }
 
+    /// give a slot claimed by `par_chunks` the configuration / plan names of an index-based explorer
+    pub fn relabel(i: Option<usize>, cfg: &str, plan: &str) {
+        if let Some(i) = i {
+            let s = &TABLE[i];
+            s.cfg_ptr.store(cfg.as_ptr() as usize, Relaxed);
+            s.cfg_len.store(cfg.len(), Relaxed);
+            s.plan_ptr.store(plan.as_ptr() as usize, Relaxed);
+            s.plan_len.store(plan.len(), Relaxed);
+            s.custom.store(false, Relaxed);
+        }
+    }
+
     /// custom engines: publish the text describing the transition about to be executed
     #[inline]
     pub fn at_text(i: Option<usize>, text: &str) {
@@ -1436,7 +1468,7 @@ pub mod crumbs {
         fn _exit(status: i32) -> !;
     }
 
-    fn put(buf: &mut [u8; 1024], n: &mut usize, bytes: &[u8]) {
+    fn put(buf: &mut [u8], n: &mut usize, bytes: &[u8]) {
         for &b in bytes {
             if *n < buf.len() {
                 buf[*n] = if b == b'\n' { b' ' } else { b };
@@ -1444,7 +1476,7 @@ pub mod crumbs {
             }
         }
     }
-    fn put_num(buf: &mut [u8; 1024], n: &mut usize, mut v: u64) {
+    fn put_num(buf: &mut [u8], n: &mut usize, mut v: u64) {
         let mut tmp = [0u8; 20];
         let mut k = 0;
         if v == 0 {
@@ -1471,16 +1503,20 @@ pub mod crumbs {
                     continue;
                 }
             }
-            let mut buf = [0u8; 1024];
+            // a static buffer: the handler may be running on the (small) alternate signal stack, and the state
+            // of an 8192-bit transition is several thousand characters long
+            static mut DUMP_BUF: [u8; 24576] = [0u8; 24576];
+            #[allow(static_mut_refs)]
+            let buf: &mut [u8] = unsafe { &mut DUMP_BUF[..] };
             let mut n = 0usize;
-            put(&mut buf, &mut n, tag);
+            put(buf, &mut n, tag);
             if s.custom.load(Relaxed) {
-                put(&mut buf, &mut n, b"-STATE|");
+                put(buf, &mut n, b"-STATE|");
                 let (p, l) = (s.cfg_ptr.load(Relaxed), s.cfg_len.load(Relaxed));
-                if p != 0 && l < 900 {
+                if p != 0 && l < 24000 {
                     let sl = unsafe { core::slice::from_raw_parts(p as *const u8, l) };
                     for &b in sl {
-                        put(&mut buf, &mut n, if b == 0x1f { b"|" } else { core::slice::from_ref(&b) });
+                        put(buf, &mut n, if b == 0x1f { b"|" } else { core::slice::from_ref(&b) });
                     }
                 }
                 if n < buf.len() {
@@ -1493,16 +1529,16 @@ pub mod crumbs {
                 continue;
             }
             for (p, l) in [(&s.cfg_ptr, &s.cfg_len), (&s.plan_ptr, &s.plan_len), (&s.op_ptr, &s.op_len)] {
-                put(&mut buf, &mut n, b"|");
+                put(buf, &mut n, b"|");
                 let (p, l) = (p.load(Relaxed), l.load(Relaxed));
                 if p != 0 && l < 400 {
                     let sl = unsafe { core::slice::from_raw_parts(p as *const u8, l) };
-                    put(&mut buf, &mut n, sl);
+                    put(buf, &mut n, sl);
                 }
             }
             for v in [&s.ai, &s.bi, &s.ci, &s.aux] {
-                put(&mut buf, &mut n, b"|");
-                put_num(&mut buf, &mut n, v.load(Relaxed));
+                put(buf, &mut n, b"|");
+                put_num(buf, &mut n, v.load(Relaxed));
             }
             if n < buf.len() {
                 buf[n] = b'\n';
